@@ -262,7 +262,7 @@ func genBurst(r *vc.Rand, thorough bool) []string {
 		// random 2-3 callers × 1-2 calls
 		n := 4
 		if thorough {
-			n = 120
+			n = 80
 		}
 		for i := 0; i < n; i++ {
 			nt := 2 + r.Intn(2)
